@@ -170,6 +170,12 @@ func replayMain(args []string) {
 						results <- b
 						continue
 					}
+					if rq.Mode == "evalbytes" {
+						b, _ = json.Marshal(M{"id": rq.ID, "ev": "EvalBytes", "fam": rq.Fam, "bytes": rq.Bytes, "src": []interface{}{}, "out": M{"o": fail}})
+						b = append(b, '\n')
+						results <- b
+						continue
+					}
 					if rq.Mode == "compile" || rq.Mode == "denote" {
 						ev := M{"id": rq.ID, "ev": map[string]string{"compile": "Lex", "denote": "Denote"}[rq.Mode], "fam": rq.Fam, "bytes": rq.Bytes, "toks": []interface{}{}, "out": M{"o": fail}}
 						b, _ = json.Marshal(ev)
